@@ -794,3 +794,39 @@ except Exception as e:
 
 M.contract(P_GLOB + ':_match_path', params=dict(model=Iface(GlobModelPathI), pattern=Str), returns=Bool,
            raises={HardErrorException: {}}, raises_only=(), replay=lambda model, rf: _GLOB_REPLAY)
+
+
+# ------------------------------------------------------------------------------ messages that are built at once
+# The message for a path symbol of the wrong relativity is built eagerly, inside the validation of the symbol
+# usages: an exception while it is put together turns the VALIDATION_ERROR it is about to report into an
+# INTERNAL_ERROR.  (C12 and C08 take this function as a trusted "only builds a message"; here it is verified, for
+# every relativity a symbol can have -- each option, or absolute -- against representative accepted sets.
+# After the seeded change C18-s6: KeyError for an absolute path symbol.)
+from exactly_lib.tcfs.path_relativity import (PathRelativityVariants as _Variants, SpecificPathRelativity as _Specific,
+                                              RelOptionType as _RelOptionType)
+from exactly_lib.type_val_deps.sym_ref.w_str_rend_restrictions import error_messages as _rel_error_messages
+
+
+class _ContainerI(Interface):
+    attrs = {'source_location': Any_}
+
+
+M.contract('exactly_lib.symbol.err_msg.error_messages:defined_at_line__err_msg_lines', trusted=True,
+           params=dict(definition_source=Any_), returns=FixedList())
+M.trust('symbol.err_msg.error_messages.defined_at_line__err_msg_lines gives a list of lines (rendering of a source '
+        'location)')
+M.contract('exactly_lib.definitions.message_rendering:render_single_text_cell_table_to_lines', trusted=True,
+           params=dict(str_or_text_cell_rows=Any_, indent=Str), returns=FixedList(Str, Str))
+M.trust('definitions.message_rendering.render_single_text_cell_table_to_lines renders rows of constant texts to '
+        'lines (the text formatting library is outside the property)')
+
+M.contract('exactly_lib.type_val_deps.sym_ref.w_str_rend_restrictions.error_messages:unsatisfied_path_relativity',
+           params=dict(symbol_name=Str, container=Iface(_ContainerI),
+                       accepted=OneOf(_Variants({_RelOptionType.REL_ACT, _RelOptionType.REL_TMP, _RelOptionType.REL_CWD},
+                                                False),
+                                      _Variants(set(_RelOptionType), True),
+                                      _Variants({_RelOptionType.REL_HDS_CASE}, True)),
+                       actual_relativity=Inst(_Specific, _relative=Opt(EnumOf(_RelOptionType)))),
+           returns=Str,
+           ensures={'a message': lambda result: isinstance(result, str)},
+           raises_only=())
